@@ -391,6 +391,9 @@ func decodeKey(seq ansi.Sequence) Key {
 						// event type
 						//
 						key.EventType = EventType(ps) - 1
+						if key.EventType < 0 {
+							key.EventType = 0
+						}
 					}
 				}
 			case 2:
